@@ -127,7 +127,8 @@ theorem second_sort_total (cyc : List Edge → List Nat) (tables : List Tbl)
     `SchemaGenerator.visit_metadata` emits for the tables `tables` (those that passed
     `_can_create_table`) is accepted statement by statement, and afterwards every table,
     every declared foreign key constraint and every index exists; nothing else changes.
-    Hypotheses: table keys distinct; the tables are new; every referred table is either
+    Hypotheses: table keys distinct; the tables are new and the backend holds no constraint
+    of a table it does not hold (adding an existing constraint is rejected); every referred table is either
     being created or already present; and the constraints disabled by an earlier
     `AddConstraint(isolate_from_table=True)` are again handed to ALTER (see
     `create_all_counterexample_isolated`). -/
@@ -135,6 +136,7 @@ theorem create_all_accepted (cyc : List Edge → List Nat) (extraArg : List Edge
     (tables : List Tbl) (db : DB) (disabled : List FkRef) (s : Sorted)
     (hn : (ids tables).Nodup)
     (hnew : ∀ t ∈ tables, t.id ∉ db.tables)
+    (hwf : ∀ r ∈ db.fks, r.1 ∈ db.tables)
     (hclosed : ∀ t ∈ tables, ∀ f ∈ t.fkcs, f.ref ∈ db.tables ∨ f.ref ∈ ids tables)
     (hs : sortTCWith cyc fltCreate extraArg tables = some s)
     (hdis : ∀ r ∈ disabled, r.1 ∈ ids tables → r ∈ s.remaining) :
@@ -167,14 +169,23 @@ theorem create_all_accepted (cyc : List Edge → List Nat) (extraArg : List Edge
           exact sp.inlineOrdered t htt f hff hnr hself hin)
   -- the ALTER TABLE ADD CONSTRAINT part
   have hrun2 := run_adds s.remaining (createdDB (createInline true disabled s) db (tblsOf tables s.order))
+    sp.remNodup
     (by
       intro r hr
       obtain ⟨t, ht, hid, hf, _⟩ := sp.remReal r hr
       simp only [createdDB, hmap, List.mem_append]
-      refine ⟨Or.inr ((hord _).2 (mem_ids.2 ⟨t, ht, hid⟩)), ?_⟩
-      rcases hclosed t ht r.2 hf with h | h
-      · exact Or.inl h
-      · exact Or.inr ((hord _).2 h))
+      refine ⟨Or.inr ((hord _).2 (mem_ids.2 ⟨t, ht, hid⟩)), ?_, ?_⟩
+      · rcases hclosed t ht r.2 hf with h | h
+        · exact Or.inl h
+        · exact Or.inr ((hord _).2 h)
+      · simp only [not_or]
+        refine ⟨fun hdb => hnew t ht (hid ▸ hwf r hdb), ?_⟩
+        intro hin
+        obtain ⟨t', _, hin'⟩ := List.mem_flatMap.1 hin
+        obtain ⟨f, hf', hrf⟩ := List.mem_map.1 hin'
+        simp only [createInline, if_true, List.mem_filter, Bool.and_eq_true, Bool.not_eq_true',
+          List.contains_eq_mem, decide_eq_false_iff_not] at hf'
+        exact hf'.2.1.1 (hrf ▸ hr))
   have hrun : run db (emitCreate true disabled tables s) =
       some ⟨(createdDB (createInline true disabled s) db (tblsOf tables s.order)).tables,
             (createdDB (createInline true disabled s) db (tblsOf tables s.order)).fks ++ s.remaining,
@@ -236,6 +247,7 @@ theorem create_all_accepted (cyc : List Edge → List Nat) (extraArg : List Edge
     belongs to the MetaData or exists. -/
 theorem create_all_checkfirst_accepted (tables : List Tbl) (db : DB)
     (hn : (ids tables).Nodup)
+    (hwf : ∀ r ∈ db.fks, r.1 ∈ db.tables)
     (hclosed : ∀ t ∈ tables, ∀ f ∈ t.fkcs, f.ref ∈ db.tables ∨ f.ref ∈ ids tables)
     (ops : List Op) (dis' : List FkRef)
     (iso : Bool)
@@ -266,13 +278,13 @@ theorem create_all_checkfirst_accepted (tables : List Tbl) (db : DB)
         · obtain ⟨t', ht', hid'⟩ := mem_ids.1 h1
           exact mem_ids.2 ⟨t', List.mem_filter.2 ⟨ht', by simpa [hid'] using hdb⟩, hid'⟩
     obtain ⟨db', hrun, _, htab, hfks, _⟩ :=
-      create_all_accepted findCycles [] cand db [] s hcn hcnew hcclosed hs (by intro r hr; cases hr)
+      create_all_accepted findCycles [] cand db [] s hcn hcnew hwf hcclosed hs (by intro r hr; cases hr)
     refine ⟨db', hrun, ?_, ?_⟩
     · intro t ht
       by_cases hdb : t.id ∈ db.tables
       · have := (sort_tables_and_constraints_perm _ _ _ _ _ hs)
         obtain ⟨db'', hrun', htabs, _⟩ :=
-          create_all_accepted findCycles [] cand db [] s hcn hcnew hcclosed hs (by intro r hr; cases hr)
+          create_all_accepted findCycles [] cand db [] s hcn hcnew hwf hcclosed hs (by intro r hr; cases hr)
         rw [hrun] at hrun'
         cases hrun'
         rw [htabs]
@@ -280,6 +292,22 @@ theorem create_all_checkfirst_accepted (tables : List Tbl) (db : DB)
       · exact htab t (List.mem_filter.2 ⟨ht, by simpa using hdb⟩)
     · intro t ht hdb f hf
       exact (hfks (t.id, f)).2 (Or.inr ⟨t, List.mem_filter.2 ⟨ht, by simpa using hdb⟩, rfl, hf⟩)
+
+/-- **create_all twice**: with checkfirst, when every table already exists nothing at all is
+    emitted (in particular no ALTER TABLE ADD CONSTRAINT for the constraints of existing tables)
+    and the MetaData state is unchanged -/
+theorem create_all_checkfirst_noop (iso sa : Bool) (present : List Nat) (disabled : List FkRef)
+    (tables : List Tbl) (hall : ∀ t ∈ tables, t.id ∈ present) :
+    createAllWith iso sa true present disabled tables = some ([], disabled) := by
+  have hcand : toCreate true present tables = [] := by
+    simp only [toCreate, if_true, List.filter_eq_nil_iff]
+    intro t ht
+    simpa using hall t ht
+  unfold createAllWith
+  simp only [hcand]
+  have hs : sortTC fltCreate [] [] = some ⟨[], []⟩ := rfl
+  rw [hs]
+  cases sa <;> cases iso <;> simp [emitCreate, tblsOf]
 
 /-- if `SchemaGenerator` did not isolate the constraints it ALTERs, create_all would leave
     the MetaData's constraints untouched (the state `disabled` never grows) -/
